@@ -44,13 +44,13 @@ def gen_case(rng, tier, idx):
         n = rng.randint(20, 400 if not big else 1200)
         if rng.random() < 0.1:
             n = rng.randint(1, 12)
-        fam = rng.choice(streams.FAMILIES)
+        fam = rng.choice(streams.FAMILIES + ["frac_vol"])
         rows = streams.make_rows(rng, n, fam, rng.choice([1, 60, 300, 3600]), rng.choice(["regular", "regular", "dups", "jitter"]))
         bucket = None
     else:
         tf, tf_s, step = pick_timeframe(rng)
         n = rng.randint(20, 300 if not big else 800)
-        fam = rng.choice(streams.FAMILIES)
+        fam = rng.choice(streams.FAMILIES + ["frac_vol"])
         mode = rng.choice(["regular", "jitter", "gaps", "gaps", "dups"])
         rows = streams.make_rows(rng, n, fam, step, mode, tf_s, max_gap_buckets=12 if tfkind == "collapse_fill" else 40)
         cfg["kw"]["timeframe"] = tf
